@@ -8,6 +8,7 @@ func init() {
 		NotDecided:  "numerical equality of scores, tie handling, cosine normalisation accuracy.",
 		Assumptions: []string{"roaring.Bitmap.Contains/Add/Clear behave as documented", "sort.Slice orders by less", "Distance implementations are checked under C18"},
 	}, func(r *Run) {
+		ruleErrProp(r, "C01.ERRPROP", "flat_index", "document_filter")
 		k, err := kindByName(r.W, "flat")
 		if err != nil {
 			r.Unres("C01.KIND", "flat", err.Error())
@@ -43,6 +44,7 @@ func init() {
 		NotDecided:  "equivalence 'node query ≡ vector query' beyond provenance; flush-invariance of results as a behavioural equality; numeric score values.",
 		Assumptions: []string{"roaring.Bitmap contracts", "sort.Slice orders by less", "container/heap keeps the Less-minimum at index 0"},
 	}, func(r *Run) {
+		ruleErrProp(r, "C02.ERRPROP", "flat_index", "hnsw_index", "ivf_index", "ivfpq_index", "pq_index", "index_search")
 		ks, err := vecKinds(r.W)
 		if err != nil {
 			r.Unres("C02.KIND", "kinds", err.Error())
